@@ -29,8 +29,14 @@ impl EmmyLuaEmitter {
 
     /// Write a doc comment line: `--- text`.
     pub fn write_doc_comment(&mut self, text: &str) {
-        for line in text.lines() {
-            let _ = writeln!(self.output, "--- {}", line);
+        for line in description_lines(text) {
+            // `--- @word` would be read as an annotation tag.
+            let escape = if line.trim_start().starts_with('@') {
+                "\\"
+            } else {
+                ""
+            };
+            let _ = writeln!(self.output, "--- {}{}", escape, line);
         }
     }
 
@@ -61,9 +67,7 @@ impl EmmyLuaEmitter {
     pub fn write_field(&mut self, name: &str, ty: &str, description: Option<&str>) {
         // Emit description above the field
         if let Some(desc) = description {
-            for line in desc.lines() {
-                let _ = writeln!(self.output, "--- {}", line);
-            }
+            self.write_doc_comment(desc);
         }
 
         // Use ["name"] form for field names with special characters. The name
@@ -82,9 +86,7 @@ impl EmmyLuaEmitter {
     /// description on a separate line above.
     pub fn write_index_field(&mut self, key_ty: &str, value_ty: &str, description: Option<&str>) {
         if let Some(desc) = description {
-            for line in desc.lines() {
-                let _ = writeln!(self.output, "--- {}", line);
-            }
+            self.write_doc_comment(desc);
         }
         let _ = writeln!(self.output, "---@field [{}] {}", key_ty, value_ty);
     }
@@ -118,6 +120,8 @@ impl EmmyLuaEmitter {
         self.alias_needs_variant = false;
         match description {
             Some(desc) => {
+                // The comment after `#` ends with the line.
+                let desc = description_lines(desc).join(" ");
                 let _ = writeln!(self.output, "---| {} # {}", ty, desc);
             }
             None => {
@@ -135,6 +139,15 @@ impl EmmyLuaEmitter {
     pub fn finish(self) -> String {
         self.output
     }
+}
+
+/// Split a description at every line break Lua knows: `\n`, `\r\n` and `\r`.
+fn description_lines(text: &str) -> Vec<String> {
+    text.replace("\r\n", "\n")
+        .replace('\r', "\n")
+        .lines()
+        .map(str::to_string)
+        .collect()
 }
 
 /// Write `value` as a string literal type.
